@@ -13,6 +13,8 @@ package main
 //   fork       competing branches: stale fork present in the store, store tip on a losing branch, peers on different branches
 //   handshake  a peer drops during the handshake (before its version / after its version before its verack / right after the
 //              verack), an honest peer connected before or after must be synced from
+//   inv-race   several peers announce the SAME new block by inv; the first announcer is not the sync peer and drops or stalls
+//              between receiving the getheaders and answering it; the sync peer's announcement must still be followed
 //   random     seeded mixtures
 
 import (
@@ -368,6 +370,54 @@ func runC06(c *Ctx) error {
 					if err := g.do(sc, "handshake"); err != nil {
 						return err
 					}
+				}
+			}
+		}
+	}
+
+	// ---- the same block announced by inv by several peers; the first one asked never answers ----
+	{
+		n := 4
+		u := &History{Subs: linearSubs(2, genesisID, n+2, bitsW2, tsNew)}
+		type cfgV struct {
+			dis bool
+			cps []cpSpec
+		}
+		cfgs := []cfgV{{false, []cpSpec{{1, 2}}}, {false, []cpSpec{{2, 3}, {4, 5}}}, {true, []cpSpec{{1, 2}}}}
+		for ci, cv := range cfgs {
+			full := func(p int) *nodeSpec { return &nodeSpec{P: p, Cap: 2000, Chain: seqInts(2, n), Reserve: seqInts(n+2, 2)} }
+			// peer 2 connected after the sync peer 1
+			base := []string{"C1", "C2", "R40"}
+			variants := [][]string{
+				{"A2.1.i", "D2", "X2", "A1.1.i", "R40"},                 // asked, then drops
+				{"A2.1.i", "S2", "D2", "A1.1.i", "R40"},                 // asked, never answers
+				{"A2.1.i", "A1.1.i", "D2", "X2", "R40"},                 // both announcements queued, the non-sync peer's handled first
+				{"A2.1.i", "D2", "X2", "R10", "A1.1.i", "R40", "A1.1.i", "R40"}, // done event handled in between; a later block too
+				{"A2.1.i", "S2", "D2", "T0", "A1.1.i", "R40"},
+			}
+			if ci > 0 && !c.Thorough() {
+				variants = variants[:2]
+			}
+			for _, v := range variants {
+				sc := &Scenario{Eng: "d", Dis: cv.dis, Cps: cv.cps, U: u, Nodes: []*nodeSpec{full(1), full(2)}, Cmds: append(append([]string{}, base...), v...)}
+				if err := g.do(sc, "inv-race"); err != nil {
+					return err
+				}
+			}
+			// three peers: both non-sync peers are asked in turn and go away, the sync peer announces last
+			sc := &Scenario{Eng: "d", Dis: cv.dis, Cps: cv.cps, U: u, Nodes: []*nodeSpec{full(1), full(2), full(3)},
+				Cmds: []string{"C1", "C2", "C3", "R40", "A2.1.i", "D2", "X2", "A3.1.i", "S3", "D3", "A1.1.i", "R40"}}
+			if err := g.do(sc, "inv-race"); err != nil {
+				return err
+			}
+			// the first announcer was connected BEFORE the sync peer (it lagged behind the store then, so it was no candidate)
+			lag := &nodeSpec{P: 2, Cap: 2000, Chain: seqInts(2, 1), Reserve: seqInts(3, n)}
+			for _, v := range [][]string{{"D2", "X2"}, {"S2", "D2"}} {
+				cmds := append([]string{"C2", "C1", "R40", fmt.Sprintf("A2.%d.i", n)}, v...)
+				cmds = append(cmds, "A1.1.i", "R40")
+				sc := &Scenario{Eng: "d", Dis: cv.dis, Cps: cv.cps, U: u, Init: seqInts(2, 2), Nodes: []*nodeSpec{full(1), lag}, Cmds: cmds}
+				if err := g.do(sc, "inv-race"); err != nil {
+					return err
 				}
 			}
 		}
